@@ -116,6 +116,9 @@ UNREGISTERED = set()
 def _sig(case):
     """A case is counted once per distinct behaviour: the sequence of task-state vectors."""
     r = case["runs"][0]
+    if case.get("spec", {}).get("kind") == "history":
+        return json.dumps([[x["op"], x["ret"], x["args"].get("L"), x["args"].get("abortAt"),
+                            x["final"]["lg"]["time"], x["final"]["lg"]["ts"]] for x in case["runs"]])
     if r.get("op") == "subconfig":
         return json.dumps([r["obs"], case["cfg"]["deps"], case["cfg"]["opts"]])
     if r.get("op") == "sort":
@@ -132,6 +135,11 @@ def nontrivial(prop, recs):
     sigs = set()
     for c in recs:
         r = c["runs"][0]
+        if c.get("spec", {}).get("kind") == "history":
+            # non-trivial history: at least two operations act on a result with >= 2 simulated steps
+            if sum(1 for x in c["runs"] if x["op"] not in ("rebuild", "snapshot") and x["final"]["lg"]["time"] >= 2) >= 2:
+                sigs.add(_sig(c))
+            continue
         if r.get("op") == "sort":
             if len(set(r["out"])) >= 2 and r["out"] != r["inp"]:
                 sigs.add(_sig(c))
@@ -148,16 +156,25 @@ def nontrivial(prop, recs):
         if len(steps) >= 2 and any("WORKING" in e["st"]["ts"] for e in steps):
             sigs.add(_sig(c))
     return {"count": len(sigs),
-            "rule": "cases = models enumerated by TLC from spec/PdesyFamilies.tla (sampled by VERIF_SEED in the "
-                    "quick tier) plus seeded random larger models, each executed on the real code; non-trivial = "
-                    "at least two simulated steps with some task WORKING; distinct = different recorded "
-                    "sequence of task-state vectors or dependency list"}
+            "rule": "cases = models / function inputs / operation histories enumerated by TLC from "
+                    "spec/PdesyFamilies.tla (sampled by VERIF_SEED in the quick tier) plus seeded random larger "
+                    "models, each executed on the real code; non-trivial = simulate case with at least two "
+                    "simulated steps and some task WORKING / history with at least two operations on a result of "
+                    ">= 2 steps / sort call that reorders >= 2 distinct elements / report call with a non-empty "
+                    "result / sub-project configured with positive duration; distinct = different recorded "
+                    "behaviour (sequence of task-state vectors, operation results) or input"}
 
 
 def samples(prop, recs, n=2):
     out = []
     for c in recs[:n]:
         r = c["runs"][0]
+        if c.get("spec", {}).get("kind") == "history":
+            out.append({"cfg_id": c["cfg"]["id"], "deps": c["cfg"]["deps"],
+                        "history": [{"op": x["op"], "args": {k: v for k, v in x["args"].items() if k != "plainTasks"},
+                                     "ret": x["ret"], "time_after": x["final"]["lg"]["time"],
+                                     "status_after": x["final"]["lg"]["status"]} for x in c["runs"]]})
+            continue
         if r.get("op") == "sort":
             out.append({k: r[k] for k in ("fn", "mode", "t", "p", "vals", "inp", "out", "ret")})
             continue
